@@ -68,7 +68,7 @@ class LinearEstimator(StandardQTomographyEstimator):
                 start_time = time.time()
 
             empi_dists_tmp = [empi_dist[1] for empi_dist in empi_dists]
-            f = np.vstack(empi_dists_tmp).flatten()
+            f = np.hstack(empi_dists_tmp)
             v = A_ddag @ (f - b)
             # -------
             estimate_sequence.append(v)
